@@ -6,11 +6,14 @@ package main
 
 import (
 	"fmt"
+	"go/types"
 	"os"
 	"regexp"
 	"sort"
 	"strconv"
 	"strings"
+
+	"golang.org/x/tools/go/ssa"
 )
 
 func init() { register("C09", checkC09) }
@@ -40,6 +43,10 @@ func checkC09(c *Ctx, e *Env) {
 		p := m.P
 		r := RunE1(m)
 		x := r.X
+		if mod == "x/ecocredit" {
+			ruleSupplyCovered(c, m, r, "C09.COVER")
+			ruleGenesisPrecision(c, m, r, "x/ecocredit/v3/genesis")
+		}
 		genPkg := "x/ecocredit/v3/genesis"
 		if mod == "x/data" {
 			genPkg = "x/data/v3/genesis"
@@ -571,12 +578,31 @@ func entails(x *Explorer, m *Model, st *State, mv *Validated, ev *Event, rq requ
 			return "yes", ""
 		}
 		if strings.HasPrefix(v, "conv(") || strings.HasPrefix(v, "req.") {
-			// governance setters store validated request values (C18.SET + message validator)
-			return "yes", ""
+			// a request value stored as is (governance setters): the message validator must have proven the class
+			rv := unconv(v)
+			if at, has := mv.Attrs["parse("+rv+")"]; has && (at.Pos || (at.NonNeg && strings.HasPrefix(body, "DecNonNeg("))) {
+				return "yes", ""
+			}
+			return "no", fmt.Sprintf("%s.%s = %s is stored as the request supplies it, and the message validator does not prove it to be a %s decimal on every accepting path", t.Name, rq.Field, v, map[bool]string{true: "non-negative", false: "positive"}[strings.HasPrefix(body, "DecNonNeg(")])
 		}
 		return "no", fmt.Sprintf("%s.%s = %s is not proven to be a non-negative decimal", t.Name, rq.Field, v)
+	// ---- any other arithmetic demand on a value the request supplies unchanged
+	case strings.HasPrefix(body, "Gt0(") || strings.HasPrefix(body, "Lt0(") || strings.HasPrefix(body, "Eq0("):
+		if rv := unconv(v); reqPath.MatchString(rv) {
+			// holdsFact above looked for the same fact among the handler's path facts and the message
+			// validator's; a value taken straight from the request has no other source of guarantees
+			return "no", fmt.Sprintf("the state validator requires %s, but %s.%s is stored as the request supplies it (%s) and neither the message validator nor the handler establishes that", inst, t.Name, rq.Field, v)
+		}
 	}
 	return "unknown", ""
+}
+
+var reqPath = regexp.MustCompile(`^req(\.[A-Za-z][A-Za-z0-9]*)+$`)
+
+// unconv: conv(req.Fees).SellerPercentageFee → req.Fees.SellerPercentageFee (the gogo → api conversion
+// of a message is field-preserving).
+func unconv(v string) string {
+	return regexp.MustCompile(`conv\(([^()]*)\)`).ReplaceAllString(v, "$1")
 }
 
 func nonEmpty(st *State, mv *Validated, t *Table, rq requirement, v string, stored bool) (string, string) {
@@ -669,5 +695,98 @@ func okCall(st *State, mv *Validated, t *Table, rq requirement, inst, v string, 
 			}
 		}
 		return "no", fmt.Sprintf("the state validator applies %s to %s.%s but the writer side does not apply it to the stored value %s: inputs accepted by the message can fail genesis validation", helper, t.Name, rq.Field, v)
+	}
+}
+
+// ---- PREC: what genesis validation re-parses with a fixed precision, writers store within it -----------
+
+// genesisFixedColumns: the (table, column) pairs ValidateGenesis (and what it calls) re-parses with a
+// …FixedDecFromString constructor, i.e. rejects when the stored string has more decimal places than
+// the credit type allows. Read off the code on every run.
+func genesisFixedColumns(m *Model, genPkg string) map[string]bool {
+	out := map[string]bool{}
+	root := findFn(m, genPkg, "ValidateGenesis")
+	if root == nil {
+		return out
+	}
+	g := NewGraph(m.P)
+	for _, fn := range sortedFns(g.Closure([]*ssa.Function{root})) {
+		if !strings.HasSuffix(fnPkgPath(fn), genPkg) {
+			continue
+		}
+		for _, ci := range callsIn(fn) {
+			sc := ci.Common().StaticCallee()
+			if sc == nil || !strings.HasSuffix(fnPkgPath(sc), mathPkgSuffix) || !strings.Contains(sc.Name(), "FixedDecFromString") || len(ci.Common().Args) < 1 {
+				continue
+			}
+			ld, ok := ci.Common().Args[0].(*ssa.UnOp)
+			if !ok {
+				continue
+			}
+			fa, ok := ld.X.(*ssa.FieldAddr)
+			if !ok {
+				continue
+			}
+			nt := namedOf(fa.X.Type())
+			if nt == nil {
+				continue
+			}
+			st, ok := nt.Underlying().(*types.Struct)
+			if !ok || fa.Field >= st.NumFields() {
+				continue
+			}
+			out[nt.Obj().Name()+"."+st.Field(fa.Field).Name()] = true
+		}
+	}
+	return out
+}
+
+func ruleGenesisPrecision(c *Ctx, m *Model, r *E1, genPkg string) {
+	p := m.P
+	req := genesisFixedColumns(m, genPkg)
+	c.Min("columns genesis validation re-parses with a fixed precision", 5, len(req))
+	type agg struct {
+		ev  *Event
+		bad string
+		n   int
+	}
+	for _, h := range r.Handlers {
+		if h.EP.Kind == "canary" {
+			continue
+		}
+		if h.nonneg == nil {
+			h.inferLoopSigns()
+		}
+		sites := map[string]*agg{}
+		for _, o := range h.Outs {
+			for _, d := range h.Deltas(o) {
+				if d.Col == "*" || d.Op == "delete" || !req[d.Table+"."+d.Col] {
+					continue
+				}
+				k := siteKey(d.Ev)
+				a := sites[k]
+				if a == nil {
+					a = &agg{ev: d.Ev}
+					sites[k] = a
+				}
+				a.n++
+				if ok, why := h.storedPrecise(o, d); !ok && a.bad == "" {
+					a.bad = d.Table + "." + d.Col + ": " + why + " on path {" + outcomeLabel(h, o) + "}"
+				}
+			}
+		}
+		var ks []string
+		for k := range sites {
+			ks = append(ks, k)
+		}
+		sort.Strings(ks)
+		for _, k := range ks {
+			a := sites[k]
+			if a.bad != "" {
+				c.Violate("C09.PREC", h.Key+"→"+k, p.Pos(a.ev.Pos.Pos()), "genesis validation re-parses this column with the credit type's precision, but a stored value is not precision-gated: "+a.bad+" — the exported state would be rejected", nil)
+			} else {
+				c.Hold("C09.PREC", h.Key+"→"+k, p.Pos(a.ev.Pos.Pos()), fmt.Sprintf("every amount stored here passed a Fixed constructor bound to a credit type precision (%d path visits); genesis validation re-parses it the same way", a.n), nil)
+			}
+		}
 	}
 }
